@@ -71,7 +71,9 @@ func zzC04Kernel(maxLines int) {
 			}
 		}
 		same := nd.And(kind == qKind, pkg == qPkg, name == qName, nd.Or(kind != 2, recv == qRecv))
-		inList := nd.Or(a1 == P, a1 == N, pkg == P, pkg == N, nd.And(two, nd.Or(a2 == P, a2 == N)))
+		// the implicit entry for the declaring package is its PATH: it never admits a foreign package by NAME
+		// ("a bare @packageonly allows only D")
+		inList := nd.Or(a1 == P, a1 == N, pkg == P, nd.And(two, nd.Or(a2 == P, a2 == N)))
 		annotated = nd.Or(annotated, same)
 		allowed = nd.Or(allowed, nd.And(same, inList))
 	}
@@ -108,6 +110,9 @@ func zzC04Kernel(maxLines int) {
 	}
 	inRange := nd.And(ms <= pos, pos <= me)
 	suppressed := nd.And(inRange, nd.Or(mtok == "ALL", mtok == "PKGO", mtok == code))
+	// known residue of the repair 5fb73c4: a WRITTEN entry that equals the declaring package's own (one-element) path
+	// cannot be told from the implicit one, so a foreign package of that NAME is not admitted by it
+	nd.Known("C04/own-path-written-as-name-entry", N == qPkg)
 	want := nd.And(annotated, nd.Not(qPkg == P), nd.Not(allowed), nd.Not(suppressed), nd.Or(qKind != 0, nd.Not(already)))
 	nd.Assert((v != nil) == want, "violation iff annotated, foreign, neither path nor name in the union of lists, not suppressed, not yet reported")
 	if v != nil {
